@@ -1,7 +1,341 @@
 package main
 
+import (
+	"fmt"
+	"os"
+	"path/filepath"
+	"strings"
+
+	"golang.org/x/tools/go/ssa"
+)
+
+// Positive controls. Before a quick check reports, the primitives it relies on are run against
+// /verif/fixtures (a tiny stand-alone module with a "good" and a "bad" twin per primitive): the bad
+// twin must be reported and the good one must be silent. A failure is printed as SELFTEST-FAIL and
+// makes the check exit non-zero — a quiet rule that cannot see its own positive example proves nothing.
+// (The per-rule positive controls are the seeded Variants, run by the thorough tier.)
+
+func fixturesDir() string {
+	if exe, err := os.Executable(); err == nil {
+		p := filepath.Join(filepath.Dir(filepath.Dir(exe)), "fixtures")
+		if _, err := os.Stat(filepath.Join(p, "fx.go")); err == nil {
+			return p
+		}
+	}
+	return "/verif/fixtures"
+}
+
+var fxProg *Program
+
+func loadFixtures() (*Program, error) {
+	if fxProg != nil {
+		return fxProg, nil
+	}
+	saved := RepoDir
+	RepoDir = fixturesDir()
+	defer func() { RepoDir = saved }()
+	P, err := Load([]string{"."}, false, nil)
+	if err != nil {
+		return nil, err
+	}
+	fxProg = P
+	return P, nil
+}
+
+func fxFunc(P *Program, name string) *ssa.Function {
+	for _, pk := range P.SSA.AllPackages() {
+		if pk.Pkg.Path() != "gatecheckfx" {
+			continue
+		}
+		if f := pk.Func(name); f != nil {
+			return f
+		}
+		// methods
+		for _, m := range pk.Members {
+			if t, ok := m.(*ssa.Type); ok {
+				for _, recv := range []interface{ String() string }{t.Type()} {
+					_ = recv
+				}
+				ms := P.SSA.MethodSets.MethodSet(t.Type())
+				for i := 0; i < ms.Len(); i++ {
+					if f := P.SSA.MethodValue(ms.At(i)); f != nil && f.Name() == name {
+						return f
+					}
+				}
+			}
+		}
+	}
+	return nil
+}
+
 // runFixtures runs the named primitive positive controls (all when names is nil) and returns
 // failure descriptions.
-func runFixtures(names []string) []string {
-	return nil
+func runFixtures(names []string) (fails []string) {
+	defer func() {
+		if r := recover(); r != nil {
+			fails = append(fails, fmt.Sprintf("fixture runner panicked: %v", r))
+		}
+	}()
+	all := map[string]func(P *Program) []string{
+		"guardcut":   fxGuardcut,
+		"lockset":    fxLockset,
+		"reentry":    fxReentry,
+		"bounds":     fxBounds,
+		"knownbits":  fxKnownBits,
+		"bitprov":    fxBitProv,
+		"wire":       fxWire,
+		"errdisc":    fxErrDisc,
+		"provenance": fxProvenance,
+		"regex":      fxRegex,
+		"table":      fxTable,
+	}
+	if names == nil {
+		for n := range all {
+			names = append(names, n)
+		}
+	}
+	P, err := loadFixtures()
+	if err != nil {
+		return []string{"fixtures do not load: " + err.Error()}
+	}
+	for _, n := range names {
+		f, ok := all[n]
+		if !ok {
+			fails = append(fails, "unknown fixture "+n)
+			continue
+		}
+		for _, m := range f(P) {
+			fails = append(fails, n+": "+m)
+		}
+	}
+	return fails
+}
+
+func need(P *Program, names ...string) ([]*ssa.Function, []string) {
+	var out []*ssa.Function
+	for _, n := range names {
+		f := fxFunc(P, n)
+		if f == nil {
+			return nil, []string{"fixture function " + n + " not found"}
+		}
+		out = append(out, f)
+	}
+	return out, nil
+}
+
+func fxGuardcut(P *Program) (fails []string) {
+	fs, e := need(P, "guardGood", "guardBad")
+	if e != nil {
+		return e
+	}
+	for i, f := range fs {
+		var site ssa.Instruction
+		for _, ci := range callsIn(f, func(nm string, cc *ssa.CallCommon) bool { return strings.HasSuffix(nm, ".sink") }) {
+			site = ci
+		}
+		if site == nil {
+			return []string{"sink call not found in " + f.Name()}
+		}
+		g, n := MustCross(site, func(e Edge, cond ssa.Value, truth bool) bool {
+			_, isP := strip(cond).(*ssa.Parameter)
+			return isP && truth
+		})
+		guarded := g && n > 0
+		if i == 0 && !guarded {
+			fails = append(fails, "MustCross does not see the guard in guardGood")
+		}
+		if i == 1 && guarded {
+			fails = append(fails, "MustCross reports guardBad as guarded")
+		}
+	}
+	return
+}
+
+func fxLockset(P *Program) (fails []string) {
+	fs, e := need(P, "lockGood", "lockBad")
+	if e != nil {
+		return e
+	}
+	for i, f := range fs {
+		li := Locks(f, lockState{})
+		var held bool
+		eachInstr(f, func(in ssa.Instruction) {
+			if ld, ok := in.(*ssa.UnOp); ok {
+				if fa, isFA := ld.X.(*ssa.FieldAddr); isFA && fieldOfAddr(fa).Name() == "n" {
+					held = len(li.At(in)) > 0
+				}
+			}
+		})
+		if i == 0 && !held {
+			fails = append(fails, "lock set is empty at the guarded read in lockGood")
+		}
+		if i == 1 && held {
+			fails = append(fails, "lock set is non-empty after RUnlock in lockBad")
+		}
+	}
+	return
+}
+
+func fxReentry(P *Program) (fails []string) {
+	fs, e := need(P, "reentryGood", "reentryBad")
+	if e != nil {
+		return e
+	}
+	if r := findReentry(fs[0], lockState{}, 4, nil, map[string]bool{}); len(r) != 0 {
+		fails = append(fails, "findReentry reports reentryGood")
+	}
+	if r := findReentry(fs[1], lockState{}, 4, nil, map[string]bool{}); len(r) == 0 {
+		fails = append(fails, "findReentry misses the self-deadlock in reentryBad")
+	}
+	return
+}
+
+func fxBounds(P *Program) (fails []string) {
+	fs, e := need(P, "boundsGood", "boundsBad")
+	if e != nil {
+		return e
+	}
+	for i, f := range fs {
+		var ms *ssa.MakeSlice
+		eachInstr(f, func(in ssa.Instruction) {
+			if m, ok := in.(*ssa.MakeSlice); ok {
+				ms = m
+			}
+		})
+		if ms == nil {
+			return []string{"make not found in " + f.Name()}
+		}
+		core := strip(ms.Len)
+		r := RangeAt(ms.Block(), func(v ssa.Value) bool { return strip(v) == core })
+		both := r.HasLo() && r.Lo >= 0 && r.HasHi() && r.Hi <= 1024
+		if i == 0 && !both {
+			fails = append(fails, "RangeAt does not derive [0,1024] in boundsGood: "+r.String())
+		}
+		if i == 1 && r.HasLo() {
+			fails = append(fails, "RangeAt invents a lower bound in boundsBad: "+r.String())
+		}
+	}
+	return
+}
+
+func fxKnownBits(P *Program) (fails []string) {
+	fs, e := need(P, "bitsGood", "bitsBad")
+	if e != nil {
+		return e
+	}
+	if len(bitContradictions(fs[0])) != 0 {
+		fails = append(fails, "bitContradictions reports bitsGood")
+	}
+	if len(bitContradictions(fs[1])) == 0 {
+		fails = append(fails, "bitContradictions misses the dead mask in bitsBad")
+	}
+	return
+}
+
+func fxBitProv(P *Program) (fails []string) {
+	fs, e := need(P, "sliceGood", "sliceBad")
+	if e != nil {
+		return e
+	}
+	for i, f := range fs {
+		p := newBitProv()
+		var r *ssa.Return
+		for _, x := range returnsOf(f) {
+			r = x
+		}
+		v := p.bits(r.Results[0], nil, 12)
+		clean := v[15] == (bitSrc{bSrc, f.Params[1], 0})
+		if i == 0 && !clean {
+			fails = append(fails, "bit 15 of sliceGood is not hi[0]: "+v[15].String())
+		}
+		if i == 1 && clean {
+			fails = append(fails, "bit 15 of sliceBad is reported clean")
+		}
+	}
+	return
+}
+
+func fxWire(P *Program) (fails []string) {
+	fs, e := need(P, "wireWrite", "wireReadGood", "wireReadBad")
+	if e != nil {
+		return e
+	}
+	vt := &VersionTable{ByName: map[string]int64{}}
+	auto := func(f *ssa.Function) wAuto {
+		w := newWireCtx(P, vt, -1)
+		s, e := w.build(f, map[ssa.Value]bool{f.Params[0]: true}, 0)
+		return wAuto{w.nfa, s, e}
+	}
+	w := auto(fs[0])
+	if ok, _, _, err := wireIncluded(w, auto(fs[1])); err != nil || !ok {
+		fails = append(fails, "wireIncluded rejects the matching reader")
+	}
+	if ok, _, _, err := wireIncluded(w, auto(fs[2])); err == nil && ok {
+		fails = append(fails, "wireIncluded accepts a reader that consumes 2 bytes where 4 are written")
+	}
+	return
+}
+
+func fxErrDisc(P *Program) (fails []string) {
+	fs, e := need(P, "errGood", "errBad")
+	if e != nil {
+		return e
+	}
+	sel := func(nm string, cc *ssa.CallCommon) bool { return nm == "io.ReadFull" }
+	if d, _ := droppedErrors(fs[0], sel); len(d) != 0 {
+		fails = append(fails, "droppedErrors reports errGood")
+	}
+	if d, _ := droppedErrors(fs[1], sel); len(d) == 0 {
+		fails = append(fails, "droppedErrors misses the discarded error in errBad")
+	}
+	return
+}
+
+func fxProvenance(P *Program) (fails []string) {
+	fs, e := need(P, "spillNil")
+	if e != nil {
+		return e
+	}
+	nNil, nMake := 0, 0
+	for _, r := range returnsOf(fs[0]) {
+		if r.Block() == fs[0].Recover {
+			continue
+		}
+		v := retVal(r, 0)
+		if isNilConst(strip(v)) {
+			nNil++
+		}
+		if cellHolds(v, isMakeSlice) {
+			nMake++
+		}
+	}
+	if nNil != 1 || nMake < 1 {
+		fails = append(fails, fmt.Sprintf("retVal/cellHolds do not see through the defer-spilled result (nil returns=%d, make returns=%d)", nNil, nMake))
+	}
+	return
+}
+
+func fxRegex(P *Program) (fails []string) {
+	if ok, _, err := RegexEquivalent("^[ab]$", "^(a|b)$"); err != nil || !ok {
+		fails = append(fails, "RegexEquivalent rejects [ab] ≡ a|b")
+	}
+	if ok, w, err := RegexEquivalent("^a*$", "^a+$"); err != nil || ok || w != "" {
+		fails = append(fails, fmt.Sprintf("RegexEquivalent(a*, a+): equal=%v witness=%q err=%v (expected the empty string as witness)", ok, w, err))
+	}
+	return
+}
+
+func fxTable(P *Program) (fails []string) {
+	// idAt replays the documented range semantics
+	r := Registration{Mappings: []Mapping{{ID: 1, FromProto: 10}, {ID: 2, FromProto: 20}}}
+	if id, ok := r.idAt(19, 30); !ok || id != 1 {
+		fails = append(fails, "idAt(19) != 1")
+	}
+	if id, ok := r.idAt(20, 30); !ok || id != 2 {
+		fails = append(fails, "idAt(20) != 2")
+	}
+	if _, ok := r.idAt(9, 30); ok {
+		fails = append(fails, "idAt(9) defined before the first mapping")
+	}
+	return
 }
